@@ -48,6 +48,16 @@ func permutedTwin(t *rapid.T, c *gen.DocCase) (*jsonapi.Document, *jsonapi.URL, 
 			res.Set(k, v)
 		}
 
+		// (the twin carries a copy of the resource's meta)
+		if mh, ok := m.Res.(jsonapi.MetaHolder); ok && mh.Meta() != nil {
+			cp := jsonapi.Meta{}
+			for k, v := range mh.Meta() {
+				cp[k] = v
+			}
+
+			res.(jsonapi.MetaHolder).SetMeta(cp)
+		}
+
 		return res
 	}
 
@@ -200,11 +210,16 @@ func observable(c *gen.DocCase) string {
 
 	for _, m := range append(append([]gen.ResModel{}, c.Primary...), c.Included...) {
 		b.WriteString(oracle.SnapshotResource(m.Res, true))
+
+		if mh, ok := m.Res.(jsonapi.MetaHolder); ok {
+			fmt.Fprintf(&b, " meta(nil=%v)=%s", mh.Meta() == nil, gen.ShowJSONish(map[string]any(mh.Meta())))
+		}
+
 		b.WriteString("\n")
 	}
 
 	u := c.URL
-	fmt.Fprintf(&b, "url frags=%q type=%q id=%q col=%v sort=%q page=%v fields=", u.Fragments, u.ResType, u.ResID, u.IsCol, u.Params.SortingRules, gen.ShowJSONish(map[string]any(u.Params.Page)))
+	fmt.Fprintf(&b, "url frags=%q type=%q id=%q col=%v sort=%q page=%v fields=", u.Fragments, u.ResType, u.ResID, u.IsCol, u.Params.SortingRules, pageValues(u.Params.Page))
 
 	for _, k := range gen.SortedKeys(u.Params.Fields) {
 		l := append([]string{}, u.Params.Fields[k]...)
@@ -241,6 +256,21 @@ func observable(c *gen.DocCase) string {
 	return b.String()
 }
 
+// pageValues renders the page parameters with the Go type of every value (a
+// number that turned from float64 into int64 reads differently to a caller).
+func pageValues(page map[string]any) string {
+	if page == nil {
+		return "nil-map"
+	}
+
+	parts := []string{}
+	for _, k := range gen.SortedKeys(page) {
+		parts = append(parts, fmt.Sprintf("%q:%T(%v)", k, page[k], page[k]))
+	}
+
+	return "{" + strings.Join(parts, ",") + "}"
+}
+
 func showFilter(f *jsonapi.Filter) string {
 	if f == nil {
 		return "none"
@@ -268,6 +298,26 @@ func TestC11Deterministic(t *testing.T) {
 		o := docOpts
 		o.DistinctIncludedIDs = rapid.IntRange(0, 3).Draw(t, "sameids") != 0
 		c := gen.Document(t, o)
+
+		// Resources may carry meta of their own (any JSON values, null
+		// included).
+		// (not the members of a soft collection: Add stores a snapshot of
+		// fields and ID, the twin's members would come out without meta)
+		withMeta := append([]gen.ResModel{}, c.Included...)
+		if c.DataKind != "softcol" {
+			withMeta = append(withMeta, c.Primary...)
+		}
+
+		for _, m := range withMeta {
+			if mh, ok := m.Res.(jsonapi.MetaHolder); ok && rapid.IntRange(0, 5).Draw(t, "resmeta") == 0 {
+				meta := jsonapi.Meta(gen.JSONObject(t, "resmeta-value", 1, 2))
+				if rapid.Bool().Draw(t, "resmeta-null") {
+					meta["zz-null"] = nil
+				}
+
+				mh.SetMeta(meta)
+			}
+		}
 
 		// A caller may list among the included resources one that is also
 		// primary data (the library only keeps that from happening in
